@@ -66,6 +66,18 @@ Proof.
   rewrite forallb_forall in H. apply H, below_in, Hc.
 Qed.
 
+(* ---- boolean NoDup ---- *)
+Fixpoint nodupb (l : list N) : bool :=
+  match l with [] => true | x :: r => andb (negb (existsb (N.eqb x) r)) (nodupb r) end.
+Lemma nodupb_NoDup l : nodupb l = true -> NoDup l.
+Proof.
+  induction l as [|x r IH]; cbn [nodupb]; intros H; [constructor|].
+  apply andb_true_iff in H. destruct H as [H1 H2]. constructor; [|apply IH, H2].
+  intros Hin. apply negb_true_iff in H1. assert (E : existsb (N.eqb x) r = true).
+  { apply existsb_exists. exists x. split; [exact Hin | apply N.eqb_refl]. }
+  congruence.
+Qed.
+
 (* ---- indexing with default 0 ---- *)
 Definition dnth (d : list N) (i : nat) : N := nth i d 0.
 
